@@ -22,7 +22,7 @@ RULE = ("scenario = operation sequence (quick <= 14, thorough <= 200) over {crea
         "clear, count, handle initialize, handle request/notification with known/unknown session id (some with slow handlers running "
         "concurrently)} interleaved with clock moves (to max_age-eps / exactly max_age / max_age+eps idle, zero advance, big jumps, backward skew); "
         "non-trivial = a cleanup ran with at least one session within 1 s of the expiry boundary, or a handler overlapped another operation, or the clock went backwards")
-PROBES = ["idle_exactly_max_age", "idle_just_over_max_age", "idle_just_under_max_age", "clock_went_backwards", "listing_mutated",
+PROBES = ["initialize_with_unsupported_version", "idle_exactly_max_age", "idle_just_over_max_age", "idle_just_under_max_age", "clock_went_backwards", "listing_mutated",
           "request_with_unknown_session", "slow_handler_overlapped", "cleanup_removed_some_kept_some"]
 TIERS = {"quick": {"runs": 20000, "wall": 45.0}, "thorough": {"runs": 600000, "wall": 560.0}}
 ASSUMPTIONS = ["the wall clock is the module attribute `time` of chuk_mcp.server.session.memory (read at call time)",
@@ -57,7 +57,8 @@ def generate(rng: random.Random, tier: str) -> dict:
         elif r < 0.70:
             ops.append({"op": "count"})
         elif r < 0.80:
-            ops.append({"op": "initialize", "info": rng.choice([None, {"name": "cli", "version": "9"}]), "version": rng.choice(VERSIONS + [None]),
+            ops.append({"op": "initialize", "info": rng.choice([None, {"name": "cli", "version": "9"}]),
+                        "version": rng.choice(VERSIONS + [None, "1999-01-01", "2026-01-01", "not-a-version", "", 20250618]),
                         "sid": rng.choice([None, None, 0])})
         elif r < 0.88:
             ops.append({"op": "request", "which": rng.randrange(-1, 6), "notification": rng.random() < 0.3,
@@ -224,6 +225,8 @@ def execute(scn: dict) -> dict:
                     existing = pick(op["sid"]) if op["sid"] is not None else None
                     if existing in model:
                         model[existing]["last"] = clock.now  # dispatch with a known session id counts as activity
+                    if op["version"] is not None and op["version"] not in VERSIONS:
+                        probe("initialize_with_unsupported_version")
                     resp, new_sid = await handler.handle_message(JSONRPCRequest(id=f"i{k}", method="initialize", params=params), existing)
                     after = set(mgr.list_sessions())
                     added = after - before
